@@ -16,6 +16,7 @@
  *   fmt ENTRY KIND LEN | reallocarray COUNT SIZE | mbs SRC SRCLEN DSTLEN|null
  *   getline CONTENT INIT|null | timegm Y M D h m s | fnmatch PAT STR FLAGS
  *   errno 0|ERANGE|EINVAL|EPERM|ENOMEM|EILSEQ|ENOSPC   (sets errno-on-entry of the following calls)
+ *   layout sep|pageend|pagestart|unaligned|srcdst|dstsrc   (where the buffers of the following calls live)
  */
 #include <usual/string.h>
 #include <usual/bits.h>
@@ -88,6 +89,16 @@ static FILE *platlog;
 static const char *cur_line;
 static char *cur_copy;
 
+/* how many calls were also made to the platform function (written to the log at exit) */
+static struct { const char *fn; unsigned long n; } cmpcnt[24];
+static void compared(const char *fn)
+{
+	int k;
+	for (k = 0; k < 24 && cmpcnt[k].fn; k++)
+		if (!strcmp(cmpcnt[k].fn, fn)) { cmpcnt[k].n++; return; }
+	if (k < 24) { cmpcnt[k].fn = fn; cmpcnt[k].n = 1; }
+}
+
 static void plat(const char *fn, const char *fmt, ...)
 {
 	va_list ap;
@@ -114,10 +125,80 @@ void *h_realloc(void *p, size_t n)
 	return realloc(p, n);
 }
 
-/* exact-size copy of n bytes (+ extra NUL when cstr) */
+/* ---- buffer layouts (op `layout NAME`, kept until `#case`): where the buffers handed to the
+ * replacements live.
+ *   sep        exact-size malloc blocks (ASan red zones on both sides)
+ *   pageend    mmap: [PROT_NONE page][data ...flush to the end][PROT_NONE page]  (unaligned start,
+ *              any access one byte past the end faults, also inside uninstrumented libc code)
+ *   pagestart  mmap: [PROT_NONE page][data at the page start ...][PROT_NONE page]  (any access one
+ *              byte before the start faults)
+ *   unaligned  malloc block with 1..7 canary bytes in front (odd addresses), exact end
+ *   srcdst     (copy ops) ONE block: source immediately followed by destination
+ *   dstsrc     (copy ops) ONE block: destination immediately followed by source
+ */
+#include <sys/mman.h>
+#include <unistd.h>
+enum { L_SEP, L_PAGEEND, L_PAGESTART, L_UNALIGNED, L_SRCDST, L_DSTSRC };
+static int layout = L_SEP;
+static unsigned lay_seq;
+static struct Reg { uint8_t *p, *base; size_t maplen, pad; int kind; } regs[32];
+
+static uint8_t *lay_alloc(size_t n)
+{
+	size_t pg = (size_t)sysconf(_SC_PAGESIZE);
+	int k, kind = layout;
+	struct Reg *r = NULL;
+	if (kind == L_SRCDST || kind == L_DSTSRC) kind = L_SEP;
+	if (kind == L_SEP) return malloc(n ? n : 1);
+	for (k = 0; k < 32; k++) if (!regs[k].p) { r = &regs[k]; break; }
+	if (!r) return malloc(n ? n : 1);
+	r->kind = kind;
+	if (kind == L_UNALIGNED) {
+		r->pad = 1 + (lay_seq++ % 7);
+		r->base = malloc(n + r->pad);
+		memset(r->base, 0xEE, r->pad);
+		r->p = r->base + r->pad;
+		return r->p;
+	}
+	{
+		size_t body = ((n + pg - 1) / pg) * pg;
+		if (body == 0) body = pg;
+		r->maplen = body + 2 * pg;
+		r->base = mmap(NULL, r->maplen, PROT_READ | PROT_WRITE, MAP_PRIVATE | MAP_ANONYMOUS, -1, 0);
+		if (r->base == MAP_FAILED) { r->p = NULL; return malloc(n ? n : 1); }
+		memset(r->base, 0xEE, r->maplen);
+		mprotect(r->base, pg, PROT_NONE);
+		mprotect(r->base + pg + body, pg, PROT_NONE);
+		r->p = kind == L_PAGEEND ? r->base + pg + body - n : r->base + pg;
+		return r->p;
+	}
+}
+
+/* release any buffer obtained from lay_alloc/malloc; reports a damaged front canary */
+static void hfree(void *q)
+{
+	int k;
+	if (!q) return;
+	for (k = 0; k < 32; k++) {
+		if (regs[k].p == q) {
+			if (regs[k].kind == L_UNALIGNED) {
+				size_t i;
+				for (i = 0; i < regs[k].pad; i++)
+					if (regs[k].base[i] != 0xEE) { printf(" UNDERWRITE"); break; }
+				free(regs[k].base);
+			} else
+				munmap(regs[k].base, regs[k].maplen);
+			regs[k].p = NULL;
+			return;
+		}
+	}
+	free(q);
+}
+
+/* exact-size copy of n bytes (+ extra NUL when cstr) in the current layout */
 static uint8_t *dupbuf(const uint8_t *b, long n, int cstr)
 {
-	uint8_t *r = malloc(n + cstr > 0 ? n + cstr : 1);
+	uint8_t *r = lay_alloc(n + cstr);
 	if (n) memcpy(r, b, n);
 	if (cstr) r[n] = 0;
 	return r;
@@ -167,7 +248,7 @@ static const char *errname(int e)
 /* ------------------------------------------------------------------ string ops */
 static int op_dstsrc(char **w, int nw)
 {
-	uint8_t *d0, *s0, *d, *s;
+	uint8_t *d0, *s0, *d, *s, *block = NULL;
 	long dl, sl;
 	unsigned long long n;
 	const char *op = w[0];
@@ -175,21 +256,35 @@ static int op_dstsrc(char **w, int nw)
 	dl = hc_unhex(w[1], &d0);
 	sl = hc_unhex(w[2], &s0);
 	if (dl < 0 || sl < 0 || !parse_ull(w[3], &n) || n > (unsigned long long)dl) return 0;
-	d = dupbuf(d0, dl, 0);
+	{
+		/* adjacent layouts: source and destination in ONE block, touching each other */
+		int ismem = !strcmp(op, "mempcpy");
+		long slen = sl + (ismem ? 0 : 1);
+		if (layout == L_SRCDST || layout == L_DSTSRC) {
+			block = malloc(slen + dl ? slen + dl : 1);
+			if (layout == L_SRCDST) { s = block; d = block + slen; }
+			else { d = block; s = block + dl; }
+			if (dl) memcpy(d, d0, dl);
+			if (sl) memcpy(s, s0, sl);
+			if (!ismem) s[sl] = 0;
+		} else {
+			d = dupbuf(d0, dl, 0);
+			s = dupbuf(s0, sl, ismem ? 0 : 1);
+		}
+	}
 	if (!strcmp(op, "mempcpy")) {
 		void *r, *r2;
 		uint8_t *d2;
 		if (n > (unsigned long long)sl) return 0;
-		s = dupbuf(s0, sl, 0);
 		r = mempcpy(d, s, n);
 		put_off(r, d); putchar(' '); hc_puthex(d, dl);
 		d2 = dupbuf(d0, dl, 0);
 		r2 = g_mempcpy(d2, s, n);
+		compared("mempcpy");
 		if ((char *)r - (char *)d != (char *)r2 - (char *)d2 || memcmp(d, d2, dl))
 			plat("mempcpy", "differs");
-		free(d2);
+		hfree(d2);
 	} else {
-		s = dupbuf(s0, sl, 1);
 		if (!strcmp(op, "strlcpy")) {
 			size_t r = strlcpy((char *)d, (char *)s, n);
 			printf("%zu ", r); hc_puthex(d, dl);
@@ -205,7 +300,10 @@ static int op_dstsrc(char **w, int nw)
 		} else
 			return 0;
 	}
-	free(d); free(s); free(d0); free(s0);
+	/* the source is never modified */
+	if (memcmp(s, s0, sl) || (strcmp(op, "mempcpy") && s[sl] != 0)) printf(" SRC-MODIFIED");
+	if (block) hfree(block); else { hfree(d); hfree(s); }
+	hfree(d0); hfree(s0);
 	return 1;
 }
 
@@ -221,9 +319,10 @@ static int op_strnlen(char **w, int nw)
 	if (m > (unsigned long long)bl && !memchr(b, 0, bl)) return 0;
 	r = strnlen((char *)b, m);
 	r2 = g_strnlen((char *)b, m);
+	compared("strnlen");
 	printf("%zu", r);
 	if (r != r2) plat("strnlen", "%zu\t%zu", r, r2);
-	free(b);
+	hfree(b);
 	return 1;
 }
 
@@ -240,9 +339,10 @@ static int op_strsep(char **w, int nw)
 		sp = NULL; sp2 = NULL;
 		r = strsep(&sp, (char *)dl);
 		r2 = g_strsep(&sp2, (char *)dl);
+		compared("strsep");
 		printf("%s %s -", r ? "nonnull" : "null", sp ? "nonnull" : "null");
 		if ((r != NULL) != (r2 != NULL) || (sp != NULL) != (sp2 != NULL)) plat("strsep", "null-arg");
-		free(dl); free(dl0);
+		hfree(dl); hfree(dl0);
 		return 1;
 	}
 	sl = hc_unhex(w[1], &s0);
@@ -252,11 +352,12 @@ static int op_strsep(char **w, int nw)
 	sp = (char *)s; sp2 = (char *)s2;
 	r = strsep(&sp, (char *)dl);
 	r2 = g_strsep(&sp2, (char *)dl);
+	compared("strsep");
 	put_off(r, s); putchar(' '); put_off(sp, s); putchar(' '); hc_puthex(s, sl + 1);
 	if ((r ? r - (char *)s : -1) != (r2 ? r2 - (char *)s2 : -1) ||
 	    (sp ? sp - (char *)s : -1) != (sp2 ? sp2 - (char *)s2 : -1) || memcmp(s, s2, sl + 1))
 		plat("strsep", "differs");
-	free(s); free(s2); free(s0); free(dl); free(dl0);
+	hfree(s); hfree(s2); hfree(s0); hfree(dl); hfree(dl0);
 	return 1;
 }
 
@@ -273,9 +374,10 @@ static int op_memrchr(char **w, int nw)
 	    || !parse_ull(w[3], &n) || n > (unsigned long long)bl) return 0;
 	r = memrchr(b, (int)c, n);
 	r2 = g_memrchr(b, (int)c, n);
+	compared("memrchr");
 	put_off(r, b);
 	if (r != r2) plat("memrchr", "%ld\t%ld", r ? (long)((uint8_t *)r - b) : -1, r2 ? (long)((uint8_t *)r2 - b) : -1);
-	free(b);
+	hfree(b);
 	return 1;
 }
 
@@ -291,6 +393,7 @@ static int op_mem2(char **w, int nw)
 	if (!strcmp(op, "memmem")) {
 		void *r = memmem(a, al, b, bl);
 		void *r2 = g_memmem(a, al, b, bl);
+		compared("memmem");
 		put_off(r, a);
 		if (r != r2) plat("memmem", "%ld\t%ld", r ? (long)((uint8_t *)r - a) : -1, r2 ? (long)((uint8_t *)r2 - a) : -1);
 	} else if (!strcmp(op, "mempbrk")) {
@@ -301,7 +404,7 @@ static int op_mem2(char **w, int nw)
 		printf("%zu", memcspn(a, al, b, bl));
 	} else
 		return 0;
-	free(a); free(b);
+	hfree(a); hfree(b);
 	return 1;
 }
 
@@ -326,10 +429,12 @@ static int op_path(char **w, int nw)
 		r = basename((char *)p);
 		e = errno; LEAVE();
 		r2 = g_basename((char *)p2);
+		compared("basename");
 	} else {
 		r = dirname((char *)p);
 		e = errno; LEAVE();
 		r2 = g_dirname((char *)p2);
+		compared("dirname");
 	}
 	if (!r) {
 		printf("null e=%s", errname(e));
@@ -350,7 +455,7 @@ static int op_path(char **w, int nw)
 			fprintf(platlog, "\t%s\n", r2 ? r2 : "(null)");
 		}
 	}
-	free(p); free(p2); free(p0);
+	hfree(p); hfree(p2); hfree(p0);
 	return 1;
 }
 
@@ -373,7 +478,7 @@ static int op_strtonum(char **w, int nw)
 	ENTER();
 	if (strtonum((char *)s, mn, mx, NULL) != r || errno != e) printf(" NULLERRSTR-DIFFERS");
 	LEAVE();
-	free(s); free(s0);
+	hfree(s); hfree(s0);
 	return 1;
 }
 
@@ -396,6 +501,7 @@ static int op_bits(char **w, int nw)
 		a[8] = loop_ffsl((long)v); a[9] = loop_flsl((long)v);
 		a[10] = loop_ffsll((long long)v); a[11] = loop_flsll((long long)v);
 		for (k = 0; k < 12; k++) printf("%02x", a[k] & 0xff);
+		compared("ffs");
 		if (a[0] != g_ffs((int)(uint32_t)v) || a[2] != g_ffsl((long)v) || a[4] != g_ffsll((long long)v))
 			plat("ffs", "%" PRIu64, v);
 	}
@@ -418,19 +524,20 @@ static int op_ntop(char **w, int nw)
 	realaf = af == 4 ? AF_INET : af == 6 ? AF_INET6 : (int)af + 1000;
 	if ((af == 4 && al != 4) || (af == 6 && al != 16)) return 0;
 	cap = size > 0 ? size : 0;
-	d = malloc(cap ? cap : 1); memset(d, 0xAA, cap ? cap : 1);
+	d = lay_alloc(cap); if (cap) memset(d, 0xAA, cap);
 	d2 = malloc(cap ? cap : 1); memset(d2, 0xAA, cap ? cap : 1);
 	ENTER();
 	r = inet_ntop(realaf, a, (char *)d, (int)size);
 	e = errno; LEAVE();
 	errno = 0;
 	r2 = size >= 0 ? g_inet_ntop(realaf, a, (char *)d2, (int)size) : NULL;
+	compared("inet_ntop");
 	e2 = errno;
 	printf("%s e=%s ", r ? (r == (char *)d ? "dst" : "other") : "null", errname(e));
 	hc_puthex(d, cap);
 	if (size >= 0 && ((r != NULL) != (r2 != NULL) || (r && strcmp(r, r2)) || (!r && e != e2)))
 		plat("inet_ntop", "%s %s\t%s %s", r ? r : "(null)", errname(e), r2 ? r2 : "(null)", r2 ? "0" : strerror(e2));
-	free(a); free(d); free(d2);
+	hfree(a); hfree(d); hfree(d2);
 	return 1;
 }
 
@@ -447,19 +554,20 @@ static int op_pton(char **w, int nw)
 	realaf = af == 4 ? AF_INET : af == 6 ? AF_INET6 : (int)af + 1000;
 	n = af == 4 ? 4 : 16;
 	s = dupbuf(s0, sl, 1);
-	dd = malloc(n); memset(dd, 0xAA, n);
+	dd = lay_alloc(n); memset(dd, 0xAA, n);
 	dd2 = malloc(n); memset(dd2, 0xAA, n);
 	ENTER();
 	r = inet_pton(realaf, (char *)s, dd);
 	e = errno; LEAVE();
 	r2 = g_inet_pton(realaf, (char *)s, dd2);
+	compared("inet_pton");
 	printf("%d e=%s ", r, errname(e));
 	hc_puthex(dd, n);
 	if (r != r2 || memcmp(dd, dd2, n)) {
 		memcpy(d, dd, n); memcpy(d2, dd2, n);
 		plat("inet_pton", "%d\t%d", r, r2);
 	}
-	free(dd); free(dd2); free(s); free(s0);
+	hfree(dd); hfree(dd2); hfree(s); hfree(s0);
 	return 1;
 }
 
@@ -494,6 +602,7 @@ static int op_fmt(char **w, int nw)
 		else { res = cx_sprintf(NULL, "%s", arg); r = res ? (int)strlen(res) : -1; }
 		e = errno; LEAVE();
 		r2 = g_asprintf_s(&res2, "%s", arg);
+		compared("asprintf");
 	} else if (kind == 1) {
 		ENTER();
 		if (entry == 0) r = asprintf(&res, "%*d", (int)len, 42);
@@ -501,6 +610,7 @@ static int op_fmt(char **w, int nw)
 		else { res = cx_sprintf(NULL, "%*d", (int)len, 42); r = res ? (int)strlen(res) : -1; }
 		e = errno; LEAVE();
 		r2 = g_asprintf_wd(&res2, "%*d", (int)len, 42);
+		compared("asprintf");
 	} else {
 		arg = fmt_arg(len - 7, len);
 		ENTER();
@@ -509,13 +619,14 @@ static int op_fmt(char **w, int nw)
 		else { res = cx_sprintf(NULL, "ab%sxy%d", arg, 123); r = res ? (int)strlen(res) : -1; }
 		e = errno; LEAVE();
 		r2 = g_asprintf_sd(&res2, "ab%sxy%d", arg, 123);
+		compared("asprintf");
 	}
 	printf("%d e=%s ", r, errname(e));
 	if (r >= 0 && res) hc_puthex(res, (size_t)r + 1);   /* exact-size block: r+1 bytes incl. NUL */
 	else printf("%s", res ? "nonnull" : "null");
 	if (r != r2 || (r >= 0 && memcmp(res, res2, r + 1))) plat("asprintf", "%d\t%d", r, r2);
-	if (r >= 0) free(res);
-	free(res2); free(arg);
+	if (r >= 0) hfree(res);
+	hfree(res2); hfree(arg);
 	return 1;
 }
 
@@ -563,6 +674,7 @@ static int op_mbs(char **w, int nw)
 	r = mbsnrtowcs(d, &sp, srclen, dstlen, &ps);
 	LEAVE();
 	r2 = g_mbsnrtowcs(d2, &sp2, srclen, dstlen, &ps2);
+	compared("mbsnrtowcs");
 	if (r == (size_t)-1) printf("-1 "); else printf("%zu ", r);
 	printf("e=%s ", errname(cur_errno));
 	put_off(sp, s0);
@@ -571,7 +683,7 @@ static int op_mbs(char **w, int nw)
 	for (i = 0; !nodst && i < dstlen; i++) printf("%s%x", i ? "," : "", (unsigned)d[i]);
 	if (r != r2 || sp != sp2 || (!nodst && memcmp(d, d2, sizeof(wchar_t) * dstlen)))
 		plat("mbsnrtowcs", "%ld@%ld\t%ld@%ld", (long)r, sp ? (long)(sp - (char *)s0) : -1, (long)r2, sp2 ? (long)(sp2 - (char *)s0) : -1);
-	free(d); free(d2); free(s0);
+	hfree(d); hfree(d2); hfree(s0);
 	return 1;
 }
 
@@ -601,6 +713,7 @@ static int op_getline(char **w, int nw)
 		r = getline(&ln, &sz, f);
 		LEAVE();
 		r2 = g_getline(&ln2, &sz2, f2);
+		compared("getline");
 		if (calls) putchar(' ');
 		printf("%d:", r);
 		if (r > 0) hc_puthex(ln, (size_t)r + 1); else putchar('-');
@@ -611,7 +724,7 @@ static int op_getline(char **w, int nw)
 	}
 	printf(" e=%s", errname(cur_errno));
 	if (differs) plat("getline", "differs");
-	fclose(f); fclose(f2); free(ln); free(ln2); free(c0);
+	fclose(f); fclose(f2); hfree(ln); hfree(ln2); hfree(c0);
 	return 1;
 }
 
@@ -637,6 +750,7 @@ static int op_timegm(char **w, int nw)
 	snprintf(tzafter, sizeof tzafter, "%s", getenv("TZ") ? getenv("TZ") : "(unset)");
 	localtime_r(&probe, &l2);
 	r2 = g_timegm(&tm2);
+	compared("timegm");
 	printf("%lld wday=%d %s", (long long)r, tm.tm_wday,
 	       (!strcmp(tzbefore, tzafter) && l1.tm_hour == l2.tm_hour && l1.tm_gmtoff == l2.tm_gmtoff) ? "tz-restored" : "TZ-CHANGED");
 	if (r != r2 || tm.tm_wday != tm2.tm_wday || tm.tm_yday != tm2.tm_yday || tm.tm_mday != tm2.tm_mday)
@@ -665,8 +779,9 @@ static int op_fnmatch(char **w, int nw)
 	r2 = g_fnmatch((char *)p, (char *)s, !!(fl & FNM_PATHNAME), !!(fl & FNM_NOESCAPE), !!(fl & FNM_PERIOD),
 		       !!(fl & FNM_CASEFOLD), !!(fl & FNM_LEADING_DIR));
 	printf("%d e=%s ## %d", r, errname(cur_errno), r);
+	compared("fnmatch");
 	if (r != r2) plat("fnmatch", "%d\t%d", r, r2);
-	free(p); free(s); free(p0); free(s0);
+	hfree(p); hfree(s); hfree(p0); hfree(s0);
 	return 1;
 }
 
@@ -682,11 +797,18 @@ int main(void)
 	tzset();
 	while ((line = hc_line())) {
 		int nw, ok = 0;
-		free(cur_copy);
+		hfree(cur_copy);
 		cur_copy = strdup(line);
 		cur_line = cur_copy;
 		nw = hc_words(line, w, 12);
-		if (nw == 1 && !strcmp(w[0], "#case")) { cur_errno = 0; puts("#case"); continue; }
+		if (nw == 1 && !strcmp(w[0], "#case")) { cur_errno = 0; layout = L_SEP; puts("#case"); continue; }
+		if (nw == 2 && !strcmp(w[0], "layout")) {
+			static const char *ln[] = {"sep", "pageend", "pagestart", "unaligned", "srcdst", "dstsrc", NULL};
+			int k;
+			for (k = 0; ln[k] && strcmp(ln[k], w[1]); k++) ;
+			if (ln[k]) { layout = k; puts("ok"); } else puts("bad-op");
+			continue;
+		}
 		if (nw == 2 && !strcmp(w[0], "errno")) {
 			static const struct { const char *n; int v; } ev[] = {
 				{"0", 0}, {"ERANGE", ERANGE}, {"EINVAL", EINVAL}, {"EPERM", EPERM}, {"ENOMEM", ENOMEM},
@@ -722,6 +844,11 @@ int main(void)
 		putchar('\n');
 	}
 	fflush(stdout);
-	if (platlog) fclose(platlog);
+	if (platlog) {
+		int k;
+		for (k = 0; k < 24 && cmpcnt[k].fn; k++)
+			fprintf(platlog, "#compared\t%s\t%lu\n", cmpcnt[k].fn, cmpcnt[k].n);
+		fclose(platlog);
+	}
 	return 0;
 }
